@@ -29,6 +29,23 @@ CLAIMS = {
             'an unclassified new site is ANALYSIS-BROKEN, not a pass; C10.e element-wise guards (strictly increasing abscissae over all neighbours, ragged rows, '
             'Locate tolerance uses the matching edge interval)',
             'absence of out-of-bounds accesses outside the enumerated protected uses; exits of the give-up class on valid input; sanitizer-visible UB in arithmetic'),
+    'C06': ('one-iteration symbolic summaries of the Lentz / series loops, path enumeration of the branch tree, write-set analysis of the memo table',
+            'C06.a the continued fraction for Q follows the modified Lentz recurrences with partial numerator -n(n-a), n a unit-step counter from 1 '
+            '(the term index advances); C06.b GammaQ branch selection over (x,a) and the complement identities (GammaP, Upper/Lower, Inv_GammaQ) with '
+            'argument order; C06.c common prefactor of series and continued fraction; C06.d series recurrence; C06.e factorial memo is history-free '
+            '(only writer push_back(back()*size())), Binomial_Coefficient forms; C06.f Gamma=exp(GammaLn), 14-term Lanczos form with the published coefficients',
+            'every accuracy figure (1e-12, 1e-3, 1e-7), range [0,1] and monotonicity of computed P and Q, the quadrature branch window, convergence of Halley\'s iteration'),
+    'C08': ('symbolic differentiation of the extracted stem function against the evaluator term; iterator-range and prefactor-degree analysis of the extremum functions',
+            'C08.a per-segment stem function G has dG/dxi = Interpolate term, contribution G(right)-G(left); C08.b segments i1..i2 inclusive, piece ends, '
+            'limit swap with sign applied exactly once on both orientations; C08.c Local_Minimum/Maximum candidate set covers every knot in (x1,x2] plus both ends; '
+            'C08.d all 1D extrema are prefactor*min/max with min/max exchanged for a negative prefactor; C08.e 2D global extrema range over all rows/columns and scale likewise',
+            'rounding in the antiderivative differences, the computed bounds min*length <= integral <= max*length'),
+    'C09': ('state confinement (field read/write sets over the whole program) and sibling cross-check of the two index searches',
+            'C09.a the search cache fields are touched only by Locate and its private search helpers, which only Locate calls; Interpolation_2D uses its helper '
+            'objects only through Locate; C09.b Bisection and Hunt put the equality case x==X[m] on the same side at every comparison (same segment closedness); '
+            'C09.c hunting loops clamp the running index on every continuing path; C09.d Set_Prefactor/Multiply write only the prefactor, no query member writes '
+            'a field, no mutable/static members, no user-declared copy/move',
+            'bit-identity of floating-point results (follows from equal indices), the performance heuristic fabs(j-jLast)<10'),
 }
 
 NOT_BUILT = 'check not built yet (framework under construction; DESIGN.md section 3 describes the planned rules)'
